@@ -186,11 +186,13 @@ func (h *NFSProcedureHandler) handleRmdir(body io.Reader, reply *RPCReply, authC
 	}
 
 	// Invalidate caches for removed directory and parent
+	// Drop everything cached at or below the removed directory (negative entries included)
+	h.server.handler.attrCache.InvalidateTree(targetPath)
 	h.server.handler.attrCache.Invalidate(targetPath)
 	h.server.handler.attrCache.Invalidate(node.path)
 	if h.server.handler.dirCache != nil {
 		h.server.handler.dirCache.Invalidate(node.path)
-		h.server.handler.dirCache.Invalidate(targetPath)
+		h.server.handler.dirCache.InvalidateTree(targetPath)
 	}
 
 	dirPostAttrs, err := h.server.handler.GetAttr(node)
